@@ -215,6 +215,14 @@ def run_item(item):
             segs.append(('anchor', d.sections[0].new_path.encode()))
             if last:
                 segs.append(('anchor', last.encode()))
+            if rng.random() < 0.12:
+                # a removed submodule closes the diff: its '-Subproject commit' line is held back until delta knows that no
+                # '+' counterpart follows, i.e. until the line after it (the next commit line, message text) has been read
+                sha = ''.join(rng.choice('0123456789abcdef') for _ in range(40))
+                for l in ['diff --git a/sub%d b/sub%d' % (k, k), 'deleted file mode 160000', 'index 1234567..0000000', '--- a/sub%d' % k, '+++ /dev/null',
+                          '@@ -1 +0,0 @@', '-Subproject commit ' + sha]:
+                    in_lines.append(l.encode())
+                segs.append(('anchor', b'Subproject'))      # (the hash itself may be wrapped over several rows in a narrow panel)
         if layout == 'text-only':
             add_text(rng.randint(1, 25))
         elif layout == 'text-then-diff':
